@@ -1,6 +1,39 @@
 (* Single entry point of the extracted model: one case in, one canonical ASCII line out. *)
 From Coq Require Import String.
-From Ruler Require Import Bytes Show Base62 Sha256 Bincode StateFiles Bundle RuleSyntax Parser TopoSort ShowRules.
+From Ruler Require Import Bytes Show Base62 Sha256 Bincode StateFiles Bundle RuleSyntax Parser TopoSort ShowRules World Ops Concrete.
+
+(* operations as the harness writes them: names are the 43-character text forms, state files raw bytes *)
+Inductive xop :=
+| XWrite (p c : bytes)
+| XRemove (p : bytes)
+| XChmod (p : bytes) (x : bool)
+| XRmCache (name : bytes)
+| XRmRuler
+| XRmCacheDir
+| XRmHistDir
+| XRmTable
+| XRmHist (name : bytes)
+| XSetTable (raw : bytes)
+| XSetHist (name raw : bytes)
+| XBuild (goal : option bytes)
+| XClean (goal : option bytes).
+
+Definition cop_of (x : xop) : list cop :=
+  match x with
+  | XWrite p c => [OWrite p c]
+  | XRemove p => [ORemove p]
+  | XChmod p b => [OChmod p b]
+  | XRmCache name => match decode62 name with Ok t => [ORmCache t] | Err _ => [] end
+  | XRmRuler => [ORmRuler]
+  | XRmCacheDir => [ORmCacheDir]
+  | XRmHistDir => [ORmHistDir]
+  | XRmTable => [ORmTable]
+  | XRmHist name => match decode62 name with Ok t => [ORmHist t] | Err _ => [] end
+  | XSetTable raw => [OSetTable (table_of_raw raw)]
+  | XSetHist name raw => match decode62 name with Ok t => [OSetHist t (history_of_raw raw)] | Err _ => [] end
+  | XBuild g => [OBuild g]
+  | XClean g => [OClean g]
+  end.
 
 Inductive case :=
 | CEncode62 (b : bytes)
@@ -12,7 +45,8 @@ Inductive case :=
 | CParseAll (contents : list bytes)
 | CBundle (lines : list bytes)
 | CTopo (rules : list rule) (goal : option bytes)
-| CRuleTicket (r : rule).
+| CRuleTicket (r : rule)
+| CHistory (coarse : bool) (t0 : N) (ops : list xop).
 
 Definition show_dec_err (e : dec_err) : bytes :=
   match e with
@@ -39,4 +73,6 @@ Definition run_case (c : case) : bytes :=
   | CBundle ls => show_bundle (parse_lines ls)
   | CTopo rs g => show_toposort (toposort rs g)
   | CRuleTicket r => show_bytes (rule_ticket r)
+  | CHistory coarse t0 ops =>
+      show_history_run (if coarse then Coarse else Fine) t0 (flat_map cop_of ops)
   end.
